@@ -143,9 +143,44 @@ pub struct TreeStats {
     b_only: u64,
     none: u64,
 }
+/// When the dishonest server creates the versions: nothing forces it to create one version per epoch.
+#[derive(Serialize, Deserialize, Clone, Copy, Debug, PartialEq)]
+pub enum Sched {
+    /// version v created at epoch v (what an honest history of one update per epoch looks like)
+    Diagonal,
+    /// version v created at epoch max(v, k): the first k versions appear together at epoch k
+    From(u16),
+    /// every version created in one single epoch k (k = E: everything committed in the epoch the proofs are checked against)
+    AllAt(u16),
+    /// d versions per epoch: version v created at epoch ceil(v/d)
+    Compress(u8),
+}
+impl Sched {
+    pub fn created(&self, v: u64, e: u64) -> u64 {
+        let k = |s: u16| 1 + sel(s, e as usize) as u64;
+        match *self {
+            Sched::Diagonal => v,
+            Sched::From(s) => v.max(k(s)),
+            Sched::AllAt(s) => k(s),
+            Sched::Compress(d) => (v + d.max(1) as u64 - 1) / d.max(1) as u64,
+        }
+        .clamp(1, e)
+    }
+}
+pub fn sched_strategy() -> impl Strategy<Value = Sched> {
+    prop_oneof![
+        3 => Just(Sched::Diagonal),
+        2 => any::<u16>().prop_map(Sched::From),
+        1 => Just(Sched::From(u16::MAX)),
+        1 => any::<u16>().prop_map(Sched::AllAt),
+        1 => Just(Sched::AllAt(u16::MAX)),
+        1 => (2u8..5).prop_map(Sched::Compress),
+    ]
+}
+
 /// A dishonest server builds a tree with exactly the leaves both proofs need, assembles both
 /// proofs and the real verifiers decide. Returns (history A verified, second proof verified).
-pub async fn replay_on_tree<TC: Tcfg>(p: &Pair) -> R<(bool, bool)> {
+pub async fn replay_on_tree<TC: Tcfg>(p: &Pair, sched: Sched) -> R<(bool, bool)> {
     let c = TC::CFG;
     let key = hard_key();
     let pk = public_key(&key);
@@ -163,18 +198,18 @@ pub async fn replay_on_tree<TC: Tcfg>(p: &Pair) -> R<(bool, bool)> {
     let ckey = h(c, &[&key]);
     let mut leaves: std::collections::BTreeMap<[u8; 32], (D, u64)> = Default::default();
     for ep in 1..=e {
-        // version v is created at epoch v; version v-1 is retired at epoch v
+        // version v is created at epoch created(v); version v-1 is retired when version v is created
         let mut ls = vec![];
         let mut states = vec![];
-        if fresh.contains(&ep) {
-            let nl = fg0.node_label::<TC>(&label, true, ep).await;
-            let cm = commitment(c, &ckey, &nl.label_val, ep, &value(ep));
+        for &v in fresh.iter().filter(|v| sched.created(**v, e) == ep) {
+            let nl = fg0.node_label::<TC>(&label, true, v).await;
+            let cm = commitment(c, &ckey, &nl.label_val, v, &value(v));
             ls.push((nl, AzksValue(cm)));
             leaves.insert(nl.label_val, (cm, ep));
-            states.push(ValueState { value: AkdValue(value(ep)), version: ep, label: nl, epoch: ep, username: AkdLabel(label.clone()) });
+            states.push(ValueState { value: AkdValue(value(v)), version: v, label: nl, epoch: ep, username: AkdLabel(label.clone()) });
         }
-        if ep >= 2 && stale.contains(&(ep - 1)) {
-            let nl = fg0.node_label::<TC>(&label, false, ep - 1).await;
+        for &v in stale.iter().filter(|v| sched.created(**v + 1, e) == ep) {
+            let nl = fg0.node_label::<TC>(&label, false, v).await;
             ls.push((nl, AzksValue(stale_value(c))));
             leaves.insert(nl.label_val, (stale_value(c), ep));
         }
@@ -189,7 +224,7 @@ pub async fn replay_on_tree<TC: Tcfg>(p: &Pair) -> R<(bool, bool)> {
     let root = model_root(c, &leaves);
     let fg = Forger::new(&stm, &key).await;
     ensure!(fg.azks.latest_epoch == e, "harness", "dishonest tree is at epoch {} instead of {e}", fg.azks.latest_epoch);
-    let mv = |v: u64| MVersion { version: v, value: value(v), epoch: v };
+    let mv = |v: u64| MVersion { version: v, value: value(v), epoch: sched.created(v, e) };
     let hist = |s: u64, n: u64| -> Vec<MVersion> { (s..=n).rev().map(mv).collect() };
     let (ok_a, ok_b) = match *p {
         Pair::HH { s, n, s2, m, .. } => {
@@ -212,8 +247,8 @@ pub async fn replay_on_tree<TC: Tcfg>(p: &Pair) -> R<(bool, bool)> {
     Ok((ok_a, ok_b))
 }
 
-async fn tree_check<TC: Tcfg>(p: &Pair, st: &mut TreeStats) -> R {
-    let (a, b) = replay_on_tree::<TC>(p).await?;
+async fn tree_check<TC: Tcfg>(p: &Pair, sched: Sched, st: &mut TreeStats) -> R {
+    let (a, b) = replay_on_tree::<TC>(p, sched).await?;
     match (a, b) {
         (true, true) => st.both_verified += 1,
         (true, false) => st.a_only += 1,
@@ -229,11 +264,11 @@ async fn tree_check<TC: Tcfg>(p: &Pair, st: &mut TreeStats) -> R {
                 return Ok(());
             }
         }
-        return fail(if compat { "verifiers-can-disagree" } else { "verifiers-disagree-on-real-tree" }, format!("{p:?}: on a real tree built by a dishonest server BOTH proofs verify under the same epoch and root with different latest versions (abstract analysis predicted compatible={compat})"));
+        return fail(if compat { "verifiers-can-disagree" } else { "verifiers-disagree-on-real-tree" }, format!("{p:?} ({sched:?}): on a real tree built by a dishonest server BOTH proofs verify under the same epoch and root with different latest versions (abstract analysis predicted compatible={compat})"));
     }
     // the abstract analysis must not be more pessimistic than the real verifiers either: when it predicts that both can
     // verify, the dishonest server must indeed succeed (keeps the 'shows' sets honest)
-    ensure!(!compat, "shows-sets-too-weak", "{p:?}: abstract analysis predicts that both proofs can verify, but on the real tree history={a} second={b}");
+    ensure!(!compat, "shows-sets-too-weak", "{p:?} ({sched:?}): abstract analysis predicts that both proofs can verify, but on the real tree history={a} second={b}");
     // each proof alone must be satisfiable by a dishonest server (otherwise the 'shows' sets demand too little / the forger is broken)
     Ok(())
 }
@@ -364,17 +399,22 @@ pub fn run(eng: &mut Engine) {
     let tree_cases = eng.tier.pick(3000, 40_000);
     eng.prop_part(
         "real_trees",
-        "sampled pairs with E <= 12 (plus, implicitly, every pair the abstract analysis calls compatible) replayed on a real tree: a dishonest server inserts exactly the leaves both proofs need (version v created at epoch v, retired at v+1), both proofs are assembled with the VRF key and handed to key_history_verify / lookup_verify under the same epoch and root; violated iff both verify with different latest versions; also cross-checks the abstract 'shows' sets against the real verifiers; every case non-trivial, distinct by pair",
+        "sampled pairs with E <= 12 (plus, implicitly, every pair the abstract analysis calls compatible) replayed on a real tree: a dishonest server inserts exactly the leaves both proofs need (version v created - and v-1 retired - at epoch v, or several versions created in one epoch: from epoch k on, all in epoch k or E, d per epoch), both proofs are assembled with the VRF key and handed to key_history_verify / lookup_verify under the same epoch and root; violated iff both verify with different latest versions; also cross-checks the abstract 'shows' sets against the real verifiers; every case non-trivial, distinct by (pair, creation schedule)",
         tree_cases,
-        || (pair_strategy(12), prop_oneof![Just(Cfg::Wa), Just(Cfg::Exp)]),
-        |(p, cfg): &(Pair, Cfg), ctx: &mut Ctx| {
-            ctx.nontrivial(fp_json(p));
-            ctx.sample(p);
+        || (pair_strategy(12), prop_oneof![Just(Cfg::Wa), Just(Cfg::Exp)], sched_strategy()),
+        |(p, cfg, sched): &(Pair, Cfg, Sched), ctx: &mut Ctx| {
+            let sched = *sched;
+            ctx.nontrivial(fp_json(&(p, sched)));
+            ctx.sample(&(p, sched));
+            ctx.class(match sched {
+                Sched::Diagonal => "one_version_per_epoch",
+                _ => "several_versions_created_in_one_epoch",
+            });
             let mut st = TreeStats::default();
             let r = block_on(async {
                 match cfg {
-                    Cfg::Wa => tree_check::<Wa>(p, &mut st).await,
-                    Cfg::Exp => tree_check::<Exp>(p, &mut st).await,
+                    Cfg::Wa => tree_check::<Wa>(p, sched, &mut st).await,
+                    Cfg::Exp => tree_check::<Exp>(p, sched, &mut st).await,
                 }
             });
             ctx.count("both_proofs_verified", st.both_verified);
